@@ -287,7 +287,35 @@ func (g *c02Gen) list(depth int, inBlock bool) (string, string) {
 	return src.String(), exp.String()
 }
 
+// c02HeaderText: literal text and output tags that stand where only the head of a
+// construct can stand are a syntax error; they are never dropped without a word.
+func c02HeaderText(b *core.B) {
+	for _, t := range []string{
+		"A<%= for (%>LOST<%= 1 %>LOST2<% x) in xs { %>b<% } %>Z",
+		"A<% for (x %>LOST<% ) in xs { %>b<% } %>Z",
+		"A<%= for (x, %>LOST<% y) in xs { %>b<% } %>Z",
+		"A<%= for (x) in xs %>LOST<% { %>b<% } %>Z",
+		"A<%= if (%>LOST<% true) { %>b<% } %>Z",
+		"A<% let f = fn(%>LOST<% a) { return a } %>Z",
+	} {
+		if !b.Begin("text inside a construct's head: " + t) {
+			continue
+		}
+		ctx := plush.NewContext()
+		ctx.Set("xs", []int{1, 2, 3})
+		res := render(b, t, ctx)
+		b.NonTrivialStr(t)
+		b.Count("text-inside-a-head")
+		if res.Pan == nil && res.Err == nil && !strings.Contains(res.Out, "LOST") {
+			b.Violate("g1:literal-text-dropped|inside-a-head", fmt.Sprintf("rendered %q without an error: the literal text LOST is gone", res.Out))
+		}
+	}
+}
+
 func c02Run(b *core.B) {
+	if b.Batch == 0 {
+		c02HeaderText(b)
+	}
 	// G2: exhaustive tag-free strings
 	maxLen := 6
 	if b.Tier == core.Thorough {
